@@ -1,7 +1,7 @@
 (** Lemmas about the parser model (C10). *)
 From Coq Require Import ZArith List Bool String Lia.
 From FV Require Import Model.PegSyntax Model.Peg Model.PegWf Model.ParserStrings Model.ParserAst Model.ParserActions
-     Model.Parser Gen.Grammar Proofs.PegProofs.
+     Model.Parser Model.ParserFiles Gen.Grammar Proofs.PegProofs.
 Import ListNotations.
 Open Scope Z_scope.
 
@@ -135,6 +135,27 @@ Proof. vm_compute. reflexivity. Qed.
 Lemma w_literals :
   is_rejected (parse_idl (cat [bytes_of_string "const string s = "; [34; 97; 92; 92; 34; 10]])) = true
   /\ is_rejected (parse_idl (cat [bytes_of_string "const string s = "; [34; 105; 116; 92; 39; 115; 34; 10]])) = true.
+Proof. vm_compute. split; reflexivity. Qed.
+
+(** ParseFrugal: a top-level constant naming an enum member is rejected (validateConstant looks for
+    an include called like the enum), although the same reference is accepted as a field default *)
+Definition is_ferr (r : fres) : bool := match r with FErr => true | _ => false end.
+Definition is_fok (r : fres) : bool := match r with FOk _ => true | _ => false end.
+Definition main_frugal : path := [bytes_of_string "main.frugal"].
+
+Lemma w_enum_ref_constant :
+  is_ferr (parse_program [(main_frugal, cat [idl "enum Color { RED, GREEN }"; idl "const Color c = Color.GREEN"])] main_frugal) = true
+  /\ is_fok (parse_program [(main_frugal, cat [idl "enum Color { RED, GREEN }";
+                                                idl "struct S { 1: Color c = Color.GREEN }"])] main_frugal) = true.
+Proof. vm_compute. split; reflexivity. Qed.
+
+(** include resolution: names, relative paths, the circular-include check *)
+Lemma w_includes :
+  is_fok (parse_program [(main_frugal, idl "include ""sub/inc.thrift""");
+                         ([bytes_of_string "sub"; bytes_of_string "inc.thrift"], idl "include ""../base.frugal""");
+                         ([bytes_of_string "base.frugal"], idl "typedef i32 T")] main_frugal) = true
+  /\ is_ferr (parse_program [(main_frugal, idl "include ""a.frugal""");
+                             ([bytes_of_string "a.frugal"], idl "include ""main.frugal""")] main_frugal) = true.
 Proof. vm_compute. split; reflexivity. Qed.
 
 Close Scope string_scope.
